@@ -73,7 +73,7 @@ impl HtxFile {
         ks_name: &str,
         sig2: HeaderSignature,
         params: &FileDbParams,
-    ) -> Result<Self> {
+    ) -> Result<(Self, bool)> {
         let piece_mgr = PieceMgr::new(&HTX_SIZE_FREE_OFFSET, &HTX_SIZE_ARY);
         let mut pb = path.as_ref().to_path_buf();
         pb.push(format!("{ks_name}.htx"));
@@ -128,7 +128,7 @@ impl HtxFile {
             check_htxf_header(&mut file_nc.file, sig2)?;
             file_nc.buckets_size = file_nc.file.read_hash_buckets_size()?;
         }
-        Ok(Self(Rc::new(RefCell::new(file_nc))))
+        Ok((Self(Rc::new(RefCell::new(file_nc))), file_length.is_zero()))
     }
     #[inline]
     pub fn read_fill_buffer(&self) -> Result<()> {
